@@ -95,12 +95,14 @@ def judgeCore (e : Env) (feature : String) (r : NRange) (h : Option Hit) : Optio
   match kind with
   | .account =>
     if sb == name then return none
-    return bad (if sb == name ++ [32] then "account-trailing-blank"
-                else if name.getLast? == some 32 && s.getLast? == some '\t' && txtBytes s.dropLast == name.dropLast
+    -- (a range that covers the name and the blank behind it is not excused: the account token
+    -- ends with its name since fix-trailing-blank-ranges.diff)
+    return bad (if name.getLast? == some 32 && s.getLast? == some '\t' && txtBytes s.dropLast == name.dropLast
                   then "account-directive-tab" else "") "an account"
   | .commodity =>
     if (sb == name && !insideQuotes e r) || sb == [34] ++ name ++ [34] then return none
-    return bad (if txtBytes (trimR s) == name then "commodity-text-trailing-blank" else "") "a commodity"
+    -- (nor a commodity range that runs on over the blanks behind a symbol lexed as text)
+    return bad "" "a commodity"
   | .payee =>
     if sb == name then return none
     return bad (if !payeeCanonical e h.get! then "payee-estimate" else "") "a payee"
@@ -114,8 +116,10 @@ def judgeCore (e : Env) (feature : String) (r : NRange) (h : Option Hit) : Optio
     if isDateText s then return none
     return bad "" "a date"
   | .amount =>
-    if !s.isEmpty && s.head? != some ' ' && s.getLast? != some ' ' then return none
-    return bad (if !(trimR s).isEmpty && (trimR s).head? != some ' ' then "amount-trailing-blank" else "") "an amount"
+    -- an amount range starts and ends with a character of the amount (`Amount.Range` ends with
+    -- the last token of the amount, not at the token that follows)
+    if !s.isEmpty && s.head? != some ' ' && s.getLast? != some ' ' && s.getLast? != some '\t' then return none
+    return bad "" "an amount"
   | .other =>
     if feature == "link" then
       if sb == name then return none
